@@ -11,3 +11,7 @@ CONSTANTS
   Pres = {"none"}
   Maps = {"cover", "other"}
   MapRebuildLossy = FALSE
+  Sibs = {"none"}
+  Vias = {"seed"}
+  SkipBase = FALSE
+  GcByPrefix = FALSE
